@@ -611,11 +611,16 @@ fn main() {
     let flips = arg("--flips", "0") == "1";
     let out = arg("--out", "/dev/null");
     let mut w = BufWriter::new(std::fs::File::create(&out).expect("create trace file"));
-    let mut rng = StdRng::seed_from_u64(seed ^ 0x5C19);
+    // --only <run>: re-drive one run alone (same schedule: every run has its own generator)
+    let only: u64 = arg("--only", "0").parse().unwrap();
     let mut cover = BTreeMap::new();
     let mut events = 0u64;
     let mut panics: Vec<String> = Vec::new();
     for run in 1..=runs {
+        if only != 0 && run != only {
+            continue;
+        }
+        let mut rng = StdRng::seed_from_u64(seed ^ 0x5C19 ^ run.wrapping_mul(0x9E37_79B9_7F4A_7C15));
         match one_run(&mut rng, run, steps, &mut w, &mut cover, quiet, flips) {
             Ok((n, p)) => {
                 events += n;
